@@ -1,6 +1,6 @@
 (* C03 — property theorems only. *)
 From Coq Require Import List NArith Bool.
-From V Require Import C03.Model C03.Proofs_map C03.Proofs_inv C03.Proofs_store C03.Proofs_new C03.Proofs_read C03.Proofs_old C03.Proofs.
+From V Require Import C03.Model C03.Proofs_map C03.Proofs_inv C03.Proofs_store C03.Proofs_new C03.Proofs_read C03.Proofs_old C03.Proofs C03.Proofs_casm.
 Import ListNotations.
 Open Scope N_scope.
 
@@ -8,8 +8,15 @@ Open Scope N_scope.
    a Revert that fails leave the state unchanged, as in juno), every historical read at every retained
    block n and every head read equals the abstract state obtained by applying the surviving chain's diffs
    up to and including n.  [lookup] answers NotFound exactly for contracts / classes that do not exist
-   in that abstract state and the stored value (zero when never written) otherwise. *)
+   in that abstract state and the stored value (zero when never written) otherwise.
+   System contracts 0x1 / 0x2 are part of the model and of the truth (they exist in the state after block
+   n iff one of their slots is non-zero there, with class hash 0 and nonce 0).  Hypothesis
+   [sys_guarded_new ops]: every accepted block leaves the system contracts it writes to with a non-empty
+   storage (zero writes, overwrites, creation, growth, revert across the creation are all allowed; what is
+   excluded is a block that EMPTIES a system contract or writes only zeros to a missing one).  Without it
+   the statement is false for juno: C03_new_sys_refuted below. *)
 Theorem C03_new : forall (ops : list op) (s : st) (rc : list diff), run_new ops = (s, rc) ->
+  sys_guarded_new ops = true ->
   (forall q n, n < blen rc -> read_new s q n = lookup (truth_at rc n) q) /\
   (forall q, read_head s q = lookup (truth rc) q).
 Proof. exact c03_new_lemma. Qed.
@@ -17,15 +24,80 @@ Print Assumptions C03_new.
 
 (* LEGACY backend: the same statement. *)
 Theorem C03_old : forall (ops : list op) (s : st) (rc : list diff), run_old ops = (s, rc) ->
+  sys_guarded_old ops = true ->
   (forall q n, n < blen rc -> read_old s q n = lookup (truth_at rc n) q) /\
   (forall q, read_head s q = lookup (truth rc) q).
 Proof. exact c03_old_lemma. Qed.
 Print Assumptions C03_old.
 
+(* op sequences that never write to a system contract need no hypothesis (the statements as they stood
+   before the system contracts were modelled) *)
+Theorem C03_new_no_sys : forall (ops : list op) (s : st) (rc : list diff), Forall no_sys_write ops ->
+  run_new ops = (s, rc) ->
+  (forall q n, n < blen rc -> read_new s q n = lookup (truth_at rc n) q) /\
+  (forall q, read_head s q = lookup (truth rc) q).
+Proof. exact c03_new_no_sys_lemma. Qed.
+Print Assumptions C03_new_no_sys.
+Theorem C03_old_no_sys : forall (ops : list op) (s : st) (rc : list diff), Forall no_sys_write ops ->
+  run_old ops = (s, rc) ->
+  (forall q n, n < blen rc -> read_old s q n = lookup (truth_at rc n) q) /\
+  (forall q, read_head s q = lookup (truth rc) q).
+Proof. exact c03_old_no_sys_lemma. Qed.
+Print Assumptions C03_old_no_sys.
+
+(* ---------- the unguarded statement is false (faithful model; replayed on the real node, findings/C03.md) ---------- *)
+Definition wr (a k v : N) : diff := mkDiff [] [] [] [((a, k), v)] [].
+(* block 0 sets slot 1 of system contract 0x1 to 5, block 1 writes it back to zero *)
+Definition ops_sys_empty := [Store (wr 1 1 5); Store (wr 1 1 0)].
+(* ... block 2 writes slot 2 := 7: the contract is created again *)
+Definition ops_sys_again := ops_sys_empty ++ [Store (wr 1 2 7)].
+
+(* NEW backend: commit() deletes the record of a system contract whose storage became empty, and with it
+   the deployment height every historical read checks first: block 0, where slot 1 held 5, now answers
+   "not found" - and keeps doing so after the contract is created again, because the new record is
+   stamped with the later block's number. *)
+Theorem C03_new_sys_refuted :
+  (exists ops s rc q n, run_new ops = (s, rc) /\ n < blen rc /\ read_new s q n <> lookup (truth_at rc n) q) /\
+  (let (s, rc) := run_new ops_sys_empty in
+     read_new s (QSlot 1 1) 0 = NotFound /\ lookup (truth_at rc 0) (QSlot 1 1) = Found 5) /\
+  (let (s, rc) := run_new ops_sys_again in
+     read_new s (QSlot 1 1) 0 = NotFound /\ lookup (truth_at rc 0) (QSlot 1 1) = Found 5 /\
+     get (s_dh s) [1] = Some 2 /\ read_new s (QSlot 1 2) 2 = Found 7).
+Proof.
+  split; [|split].
+  - exists ops_sys_empty, (fst (run_new ops_sys_empty)), (snd (run_new ops_sys_empty)), (QSlot 1 1), 0.
+    split; [vm_compute; reflexivity | split; [vm_compute; reflexivity | vm_compute; discriminate]].
+  - vm_compute. split; reflexivity.
+  - vm_compute. repeat split; reflexivity.
+Qed.
+Print Assumptions C03_new_sys_refuted.
+
+(* LEGACY backend: Update never removes a system contract, so after its storage became empty it is still
+   reported as existing (class hash 0, slots 0) at the emptying block, by number and at head, where the
+   truth - and the new backend at head - say "not found". *)
+Theorem C03_old_sys_refuted :
+  (exists ops s rc q n, run_old ops = (s, rc) /\ n < blen rc /\ read_old s q n <> lookup (truth_at rc n) q) /\
+  (let (s, rc) := run_old ops_sys_empty in
+     read_old s (QClass 1) 1 = Found 0 /\ read_head s (QClass 1) = Found 0 /\
+     lookup (truth_at rc 1) (QClass 1) = NotFound /\ read_old s (QSlot 1 1) 0 = Found 5).
+Proof.
+  split.
+  - exists ops_sys_empty, (fst (run_old ops_sys_empty)), (snd (run_old ops_sys_empty)), (QClass 1), 1.
+    split; [vm_compute; reflexivity | split; [vm_compute; reflexivity | vm_compute; discriminate]].
+  - vm_compute. repeat split; reflexivity.
+Qed.
+Print Assumptions C03_old_sys_refuted.
+
+(* the guard is what these sequences violate, and a zero write that does NOT empty the contract satisfies it *)
+Example ex_sys_guard_needed :
+  sys_guarded_new ops_sys_empty = false /\ sys_guarded_old ops_sys_empty = false /\
+  sys_guarded_new [Store (mkDiff [] [] [] [((1, 1), 5); ((1, 2), 6)] []); Store (wr 1 1 0); Revert; Store (wr 2 9 1); Revert; Revert] = true.
+Proof. vm_compute. repeat split; reflexivity. Qed.
+
 (* "not found" iff the contract / class does not exist in the abstract state; unset slots are zero *)
 Theorem C03_notfound_iff : forall a q, lookup a q = NotFound <->
   match q with
-  | QClass x | QNonce x | QSlot x _ => a_contract a x = None
+  | QClass x | QNonce x | QSlot x _ => a_exists a x = None
   | QDecl h => a_decl a h = None
   end.
 Proof. exact lookup_notfound. Qed.
@@ -60,24 +132,56 @@ Theorem C03_deploy_height : forall s x n h, get (s_dh s) [x] = Some h -> deploye
 Proof. intros. unfold deployed_at. rewrite H. auto. Qed.
 Print Assumptions C03_deploy_height.
 
-(* reverting a block removes exactly the log entries it wrote and restores every bucket *)
-Theorem C03_revert_restores_new : forall s d, Inv s -> Hist_new s -> Valid s d -> revert_new (store_new s d) d = Some s.
+(* reverting a block removes exactly the log entries it wrote and restores every bucket.  [VS s d] = the
+   block is valid on s and satisfies the system-contract guard (valid_diffb_VS) *)
+Theorem C03_VS : forall s d, valid_diffb s d = true -> sys_guard s d = true -> VS s d.
+Proof. exact valid_diffb_VS. Qed.
+Print Assumptions C03_VS.
+
+Theorem C03_revert_restores_new : forall s d, Inv s -> Hist_new s -> VS s d -> revert_new (store_new s d) d = Some s.
 Proof. exact revert_store_new. Qed.
 Print Assumptions C03_revert_restores_new.
 
 (* legacy: no guard is needed since juno commit 1b89e86 (a zero write to an absent slot logs nothing; the
    reverse diff then takes the head value) *)
-Theorem C03_revert_restores_old : forall s d, Inv s -> Valid s d -> revert_old (store_old s d) d = Some s.
+Theorem C03_revert_restores_old : forall s d, Inv s -> VS s d -> revert_old (store_old s d) d = Some s.
 Proof. exact revert_store_old. Qed.
 Print Assumptions C03_revert_restores_old.
 
 (* historical answers do not change when a block is appended *)
-Theorem C03_new_stable : forall s d q m, Inv s -> Valid s d -> m < s_next s -> read_new (store_new s d) q m = read_new s q m.
+Theorem C03_new_stable : forall s d q m, Inv s -> VS s d -> m < s_next s -> read_new (store_new s d) q m = read_new s q m.
 Proof. exact read_new_stable. Qed.
 Print Assumptions C03_new_stable.
-Theorem C03_old_stable : forall s d q m, Inv s -> Valid s d -> m < s_next s -> read_old (store_old s d) q m = read_old s q m.
+Theorem C03_old_stable : forall s d q m, Inv s -> VS s d -> m < s_next s -> read_old (store_old s d) q m = read_old s q m.
 Proof. exact read_old_stable. Qed.
 Print Assumptions C03_old_stable.
+
+(* ---------- compiled class hashes of Sierra classes (CompiledClassHash at head, CompiledClassHashAt by block;
+   the metadata bucket is shared by both state backends) ----------
+   After ANY sequence of block additions and head reverts, the hash read at every retained block n and at head is
+   the one the surviving chain's diffs give the class as of that block: the declared hash from the declaring block
+   on, the migrated-to hash from the migrating block on, "not found" below the declaring block. *)
+Theorem C03_casm : forall (ops : list cop) (m : smap meta) (rc : list cblk), crun ops = (m, rc) ->
+  (forall h n, n < clen rc -> casm_read m h n = ans_of (ctruth_at rc n h)) /\
+  (forall h, casm_head m h = ans_of (ctruth rc h)).
+Proof. exact c03_casm_lemma. Qed.
+Print Assumptions C03_casm.
+
+Theorem C03_casm_revert_restores : forall n b m, sorted m -> cvalid m b = true -> casm_revert b (casm_store n b m) = m.
+Proof. exact casm_undo_b. Qed.
+Print Assumptions C03_casm_revert_restores.
+
+Definition cA := mkCblk false [(20, (30, 31)); (21, (40, 41))] [].
+Definition cB := mkCblk true [(22, (50, 50))] [(20, 31)].
+Definition cC := mkCblk true [] [(21, 41)].
+Definition cops_ex := [CStore cA; CStore cB; CRevert; CStore cC; CStore cB].
+Example ex_casm :
+  snd (crun cops_ex) = [cB; cC; cA] /\
+  casm_read (fst (crun cops_ex)) 20 0 = Found 30 /\ casm_read (fst (crun cops_ex)) 20 1 = Found 30 /\
+  casm_read (fst (crun cops_ex)) 20 2 = Found 31 /\ casm_read (fst (crun cops_ex)) 21 1 = Found 41 /\
+  casm_read (fst (crun cops_ex)) 22 1 = NotFound /\ casm_read (fst (crun cops_ex)) 22 2 = Found 50 /\
+  casm_head (fst (crun cops_ex)) 21 = Found 41.
+Proof. vm_compute. repeat split; reflexivity. Qed.
 
 (* ---------- the statements are not vacuous ---------- *)
 Definition dA := mkDiff [(100, 10)] [] [(100, 1)] [((100, 1), 5); ((100, 2), 0)] [10].
@@ -106,3 +210,20 @@ Example ex_old_reads_with_noop_zero :
 Proof. vm_compute. repeat split. Qed.
 Example ex_old_chain : snd (run_old ops_ex) = [dB; dA].
 Proof. vm_compute. reflexivity. Qed.
+
+(* system contracts: creation by a storage write, zero write that leaves another slot, growth, revert across
+   the creation and re-creation - guarded, read exactly on both backends *)
+Definition dS1 := mkDiff [(100, 10)] [] [] [((1, 1), 5); ((1, 2), 6); ((100, 1), 9)] [].
+Definition ops_sys := [Store dS1; Store (wr 1 1 0); Store (wr 2 7 3); Revert; Revert; Revert; Store (wr 1 3 4); Store dS1].
+Example ex_sys_guarded : sys_guarded_new ops_sys = true /\ sys_guarded_old ops_sys = true.
+Proof. vm_compute. split; reflexivity. Qed.
+Example ex_sys_reads_new :
+  let s := fst (run_new ops_sys) in
+  read_new s (QSlot 1 3) 0 = Found 4 /\ read_new s (QSlot 1 1) 0 = Found 0 /\ read_new s (QSlot 1 1) 1 = Found 5 /\
+  read_new s (QClass 1) 0 = Found 0 /\ read_new s (QClass 2) 1 = NotFound /\ read_head s (QNonce 1) = Found 0.
+Proof. vm_compute. repeat split; reflexivity. Qed.
+Example ex_sys_reads_old :
+  let s := fst (run_old ops_sys) in
+  read_old s (QSlot 1 3) 0 = Found 4 /\ read_old s (QSlot 1 1) 0 = Found 0 /\ read_old s (QSlot 1 1) 1 = Found 5 /\
+  read_old s (QClass 1) 0 = Found 0 /\ read_old s (QClass 2) 1 = NotFound /\ read_head s (QNonce 1) = Found 0.
+Proof. vm_compute. repeat split; reflexivity. Qed.
